@@ -2777,6 +2777,31 @@ struct Explorer {
         }
       }
     }
+    // 2c: a status format without counters (NINJA_STATUS without a placeholder): every finished command still has a line of
+    // its own, also when several commands are described by the same text
+    if (op.cfg.env.count("NINJA_STATUS") && op.cfg.env.at("NINJA_STATUS").find('%') == string::npos && !verbose) {
+      const string& pre = op.cfg.env.at("NINJA_STATUS");
+      map<string, int> want_lines;
+      bool any_console2 = false;
+      for (auto& c : r.cmds) if (c.console) any_console2 = true;
+      for (auto& c : r.cmds) {
+        if (!c.finished || c.unreaped || c.status == 130) continue;
+        const Variant* v = VariantByHash(sc, c.manifest_hash);
+        string desc = c.spec.line;
+        if (v) { auto p = v->producer.find(c.spec.id()); if (p != v->producer.end() && !v->stmts[p->second].desc.empty()) desc = v->stmts[p->second].desc; }
+        want_lines[desc]++;
+      }
+      if (!any_console2)
+        for (auto& kv : want_lines) {
+          string line = pre + kv.first + "\n";
+          int have = 0;
+          for (size_t at = T.find(line); at != string::npos; at = T.find(line, at + 1))
+            if (at == 0 || T[at - 1] == '\n') have++;
+          if (have < kv.second)
+            bad("status-line-missing", to_string(kv.second) + " commands described as '" + kv.first + "' finished and the transcript has " +
+                to_string(have) + " status line(s) for them");
+        }
+    }
     // 3: counters
     vector<array<long, 5>> cnt;   // s f t r u  (default format: f t only)
     {
